@@ -58,18 +58,25 @@ async def real_ev(p, log, loop, EXC):
         _, kind, ab, t, body, form = p
         fn = {('timeout', False): curio.timeout_after, ('timeout', True): curio.timeout_at,
               ('ignore', False): curio.ignore_after, ('ignore', True): curio.ignore_at}[(kind, ab)]
+        leaf = nblocks(body) == 0
+        if form.startswith('cmlate:'):
+            # the context manager object is built ahead of the `async with` that enters it: a relative deadline counts
+            # from the ENTRY of the block (the model: Seq (Await d) (Block ...))
+            cm = fn(t * TICK)
+            await asyncio.sleep(int(form.split(':')[1]) * TICK)
         t0 = loop.time()
         dl = t * TICK if ab else t0 + t * TICK
-        if form == 'cm':
-            cm = fn(t * TICK)
+        if form == 'cm' or form.startswith('cmlate:'):
+            if form == 'cm':
+                cm = fn(t * TICK)
             try:
                 async with cm:
                     await real_ev(body, log, loop, EXC)
             except BaseException as e:
-                log.append([type(e).__name__, cm.expired, t0, dl, loop.time(), kind])
+                log.append([type(e).__name__, cm.expired, t0, dl, loop.time(), kind, leaf])
                 raise
             else:
-                log.append(['normal', cm.expired, t0, dl, loop.time(), kind])
+                log.append(['normal', cm.expired, t0, dl, loop.time(), kind, leaf])
         else:
             async def bodyco():
                 await real_ev(body, log, loop, EXC)
@@ -81,10 +88,10 @@ async def real_ev(p, log, loop, EXC):
                     r = await fn(t * TICK, bodyco)
             except BaseException as e:
                 # the coroutine form has no `expired` attribute: a TaskTimeout at (or after) the deadline is its expiry
-                log.append([type(e).__name__, type(e).__name__ == 'TaskTimeout' and loop.time() >= max(dl, t0) - 1e-9, t0, dl, loop.time(), kind])
+                log.append([type(e).__name__, type(e).__name__ == 'TaskTimeout' and loop.time() >= max(dl, t0) - 1e-9, t0, dl, loop.time(), kind, leaf])
                 raise
             else:
-                log.append(['normal', r == 'TIMEOUT', t0, dl, loop.time(), kind])
+                log.append(['normal', r == 'TIMEOUT', t0, dl, loop.time(), kind, leaf])
 
 
 def run_program(case):
@@ -146,7 +153,10 @@ def prog_term(p):
     if k == 'try':
         return f"(Try {prog_term(p[1])} {c_list([EXN[c] for c in p[2]], 'exn')} {prog_term(p[3])})"
     if k == 'block':
-        return f"(Block {'KTimeout' if p[1] == 'timeout' else 'KIgnore'} {c_bool(p[2])} {c_Z(p[3])} {prog_term(p[4])})"
+        b = f"(Block {'KTimeout' if p[1] == 'timeout' else 'KIgnore'} {c_bool(p[2])} {c_Z(p[3])} {prog_term(p[4])})"
+        if p[5].startswith('cmlate:'):
+            return f"(Seq (Await {c_Z(int(p[5].split(':')[1]))}) {b})"
+        return b
     raise ValueError(k)
 
 
@@ -183,7 +193,7 @@ def gen_prog(rng, depth, opts):
         ab = rng.random() < 0.3
         t = 2 * rng.choice([0, 1, 2, 3, 4, 6, 8, 12, -1] if ab else [0, 1, 2, 3, 4, 6, 8, 12])
         return ['block', rng.choice(['timeout', 'ignore']), ab, t, gen_prog(rng, depth - 1, opts),
-                rng.choice(['cm', 'cm', 'coro'])]
+                rng.choice(['cm', 'cm', 'coro'] * 4 + ['cmlate:2', 'cmlate:6', 'cmlate:14'])]
     if r < 0.96:
         classes = rng.choice([['TaskTimeout'], ['TaskTimeout', 'UncaughtTimeoutError'], ['KeyError'],
                               ['UncaughtTimeoutError']] + ([['TimeoutCancellationError'], ['CancelledError']]
